@@ -273,8 +273,13 @@ impl Poly {
                 // In this case the roots are the roots of Bx-abs(C) (C < 0)
                 let b = div.mod_uint(&self.b);
                 let binv = inv.invert(b as u32, &div) as u64;
-                debug_assert!(self.c.is_negative());
+                // For very small n, C = (B^2 - n) / A may also be positive.
                 let c = div.mod_uint(&self.c.abs().to_bits());
+                let c = if self.c.is_negative() || c == 0 {
+                    c
+                } else {
+                    p as u64 - c
+                };
                 let r = shift(div.divmod64(c * binv).1 as u32);
                 (r, r)
             } else {
